@@ -1,6 +1,53 @@
 import Driver.Util
+import Sqfs.Spec.BlockWriter
+/-!
+`sqfsmodel c08` — line protocol (one result line per input line).
+
+Block writer (state = `Sqfs.BlockWriter.State`)
+* `bw-init <prehex> <wrflags-dec>`                      → `ok`
+* `bw-write <chk-hex> <flags-hex> <datahex>`            → `ok <loc> <filesize> <nblocks>` | `err oob` | `err internal`
+* `bw-file`                                             → `file <hex>`
+Monitor (stateless; evaluates the specification on bytes the *implementation* produced)
+* `mon-slice <filehex> <loc-dec> <payloadhex>`          → `1` | `0`
+-/
 namespace Driver.C08
-/-- stub: the model driver for C08 is not built yet -/
+open Sqfs.BlockWriter
+
+def hexNat (s : String) : Option Nat :=
+  if s.isEmpty then none
+  else s.toList.foldl (fun acc c => do
+    let a ← acc
+    let v ← hexVal c
+    pure (a * 16 + v)) (some 0)
+
+structure St where
+  bw : State := init []
+
+def showErr : Err → String
+  | .outOfBounds => "err oob"
+  | .internal => "err internal"
+
+def step (st : St) (line : String) : St × String :=
+  match words line with
+  | ["bw-init", pre, wf] =>
+    match fromHex pre, wf.toNat? with
+    | some p, some f => ({ st with bw := init p f }, "ok")
+    | _, _ => (st, "bad-op")
+  | ["bw-write", chk, flags, data] =>
+    match hexNat chk, hexNat flags, fromHex data with
+    | some c, some f, some d =>
+      match writeDataBlock st.bw (UInt32.ofNat c) f d with
+      | .ok (s', loc) => ({ st with bw := s' }, s!"ok {loc} {s'.file.length} {s'.blocks.length}")
+      | .error e => (st, showErr e)
+    | _, _, _ => (st, "bad-op")
+  | ["bw-file"] => (st, "file " ++ toHexTok st.bw.file)
+  | ["mon-slice", file, loc, payload] =>
+    match fromHex file, loc.toNat?, fromHex payload with
+    | some f, some l, some p => (st, if slice f l p.length == p then "1" else "0")
+    | _, _, _ => (st, "bad-op")
+  | _ => (st, "bad-op")
+
 def run (_args : List String) : IO Unit := do
-  IO.eprintln "sqfsmodel: model C08 not built yet"
+  stateLoop (← IO.getStdin) (← IO.getStdout) step {}
+
 end Driver.C08
